@@ -5,7 +5,7 @@ import vlib
 
 ALLVALS = {"etag", "lm", "both", "none", "weak"}
 BASE = dict(NRes=2, NClients=3, Forms="<- AllForms", FormStorable="<- StorableTab", FormLife="<- LifeTab", ValKinds=ALLVALS,
-            DefaultAge=3, IgnoreCC=False, ForceDefault=False, Retry416=False, StoreMayRefuse=False, Unlinks=False, MaxVer=3, MaxNow=12, MaxX=8,
+            DefaultAge=3, IgnoreCC=False, ForceDefault=False, PolicyFlips=False, Retry416=False, StoreMayRefuse=False, Unlinks=False, MaxVer=3, MaxNow=12, MaxX=8,
             Kinds={"get", "range", "head"}, Conds={"none", "inm", "ims", "bad"})
 
 
@@ -27,6 +27,11 @@ def policy_families():
     # time: the proxy is built under the opposite values and the family's are set afterwards; the latest values govern
     f.append(fam("px_memory_policy_switched_off", late=True))
     f.append(fam("px_file_policy_switched_on", backend="file", late=True, IgnoreCC=True, ForceDefault=True))
+    # the switches are flipped in the middle of a history (action SetPolicy): an answer is judged by the values in force when
+    # it arrives, an entry keeps the lifetime it was given
+    f.append(fam("px_memory_policy_flips", PolicyFlips=True, genforms="FlipForms", NRes=1, Kinds={"get"}, Conds={"none", "inm"}))
+    f.append(fam("px_file_policy_flips", backend="file", PolicyFlips=True, IgnoreCC=True, genforms="FlipForms", NRes=2, NClients=2,
+                 Kinds={"get", "range"}, Conds={"none"}))
     return f
 
 
